@@ -121,6 +121,9 @@ def parse_value(s):
 def parse_state(body):
     """'/\\ a = 1\\n/\\ b = <<>>' -> {a: 1, b: ()}"""
     st = {}
+    body = body.strip()
+    if body and not body.startswith("/\\"):
+        body = "/\\ " + body  # a single-variable state is printed without the conjunction bullet
     for vm in re.finditer(r"/\\ (\w+) = (.*?)(?=\n/\\ |\Z)", body, re.S):
         st[vm.group(1)] = parse_value(vm.group(2))
     return st
